@@ -164,7 +164,12 @@ fn all_vec(bits: u32) -> Vec<u32> {
 }
 
 pub fn unary_sp<T: Px>(thorough: bool) -> Vec<(String, Space)> {
-    let lim = if thorough { 22 } else { 16 };
+    unary_sp_lim::<T>(thorough, 24)
+}
+
+/// unary spaces: complete for N <= 16 (quick) / N <= lim_thorough (thorough), lattice + alphabet above
+pub fn unary_sp_lim<T: Px>(thorough: bool, lim_thorough: u32) -> Vec<(String, Space)> {
+    let lim = if thorough { lim_thorough } else { 16 };
     if T::N <= lim {
         vec![(String::new(), Space::all(T::N))]
     } else {
@@ -274,7 +279,7 @@ pub fn c13<T: Px>(thorough: bool) -> Vec<CellDef> {
         }
     }
     if T::fb(0).sqrt().is_some() {
-        for (sfx, sp) in unary_sp::<T>(thorough) {
+        for (sfx, sp) in unary_sp_lim::<T>(thorough, 32) {
             v.push(CellDef::new("C13", format!("{}/sqrt{}", T::name(), sfx), sp, move |k| {
                 let a = k as u32;
                 let (want, nt) = refs::sqrt(n, es, a);
@@ -282,7 +287,7 @@ pub fn c13<T: Px>(thorough: bool) -> Vec<CellDef> {
             }));
         }
     }
-    for (sfx, sp) in unary_sp::<T>(thorough) {
+    for (sfx, sp) in unary_sp_lim::<T>(thorough, 32) {
         v.push(CellDef::new("C13", format!("{}/round{}", T::name(), sfx), sp, move |k| {
             let a = k as u32;
             let (want, nt) = refs::rounding(n, es, 0, a);
